@@ -2,7 +2,8 @@
 // Table metadata (src/table/meta.rs `ParsedMeta::load_with_handle`): every field of the parsed metadata is decoded from the property
 // of the meta block that carries its name - id, item / tombstone / weak-tombstone counts, block counts, file size, creation time,
 // key range (key#min, key#max), seqno range (seqno#min, seqno#max), compression - after the block was loaded with its checksum
-// verified and its type checked.  Obligations C18.5, C07.14, C04.13
+// verified and its type checked; and `Writer::finish` stores each of these properties under exactly that name with the writer's own
+// value (lemma_meta_roundtrip: what is written is what is parsed).  Obligations C18.5, C07.14, C04.13
 use vstd::prelude::*;
 
 //@ FROM src/table/meta.rs :: - :: macro_rules read_u8
@@ -76,6 +77,15 @@ pub const N_SEQNO_MIN: Name = Name(16);
 pub const N_SEQNO_MAX: Name = Name(17);
 pub const N_COMPRESSION_DATA: Name = Name(18);
 pub const N_COMPRESSION_INDEX: Name = Name(19);
+pub const N_CRATE_VERSION: Name = Name(20);
+pub const N_DATA_BLOCK_HASH_RATIO: Name = Name(21);
+pub const N_INDEX_KEYS_HAVE_SEQNO: Name = Name(22);
+pub const N_INITIAL_LEVEL: Name = Name(23);
+pub const N_KEY_COUNT: Name = Name(24);
+pub const N_PREFIX_TRUNC_DATA: Name = Name(25);
+pub const N_PREFIX_TRUNC_INDEX: Name = Name(26);
+pub const N_RESTART_INTERVAL_DATA: Name = Name(27);
+pub const N_USER_DATA_SIZE: Name = Name(28);
 
 #[derive(Copy, Clone, PartialEq, Eq, Structural)] enum BlockType { Data, Index, Filter, Meta }
 impl vstd::std_specs::convert::FromSpecImpl<BlockType> for u8 { open spec fn obeys_from_spec() -> bool { false } uninterp spec fn from_spec(v: BlockType) -> u8; }
@@ -304,6 +314,194 @@ impl ParsedMeta {
         })
     }
 //@ END
+}
+
+// ---------------- writer side: the properties Writer::finish stores ----------------
+pub uninterp spec fn le64(x: u64) -> Seq<u8>;
+pub uninterp spec fn le128(x: u128) -> Seq<u8>;
+/// fixed-width little-endian coding is invertible (byteorder / to_le_bytes)
+#[verifier::external_body]
+pub broadcast proof fn axiom_le()
+    ensures forall|x: u64| #![trigger le64(x)] le64(x).len() == 8 && un_le64(le64(x)) == x,
+        forall|x: u128| #![trigger le128(x)] le128(x).len() == 16 && un_le128(le128(x)) == x,
+{}
+/// `x.to_le_bytes()`
+trait LeBytes { spec fn le_spec(&self) -> Seq<u8>; fn le_bytes(&self) -> (r: Vec<u8>) ensures r@ == self.le_spec(); }
+impl LeBytes for u64 { spec fn le_spec(&self) -> Seq<u8> { le64(*self) } #[verifier::external_body] fn le_bytes(&self) -> (r: Vec<u8>) { unimplemented!() } }
+impl LeBytes for u128 { spec fn le_spec(&self) -> Seq<u8> { le128(*self) } #[verifier::external_body] fn le_bytes(&self) -> (r: Vec<u8>) { unimplemented!() } }
+impl LeBytes for u8 { spec fn le_spec(&self) -> Seq<u8> { seq![*self] } #[verifier::external_body] fn le_bytes(&self) -> (r: Vec<u8>) { unimplemented!() } }
+uninterp spec fn le_f32(x: f32) -> Seq<u8>;
+impl LeBytes for f32 { spec fn le_spec(&self) -> Seq<u8> { le_f32(*self) } #[verifier::external_body] fn le_bytes(&self) -> (r: Vec<u8>) { unimplemented!() } }
+/// what CompressionType::encode_into_vec writes; decode is its inverse (src/compression.rs)
+uninterp spec fn compression_bytes(c: CompressionType) -> Seq<u8>;
+#[verifier::external_body] proof fn axiom_compression(c: CompressionType) ensures compression_of(compression_bytes(c)) == c {}
+impl CompressionType { #[verifier::external_body] fn encode_into_vec(&self) -> (r: Vec<u8>) ensures r@ == compression_bytes(*self) { unimplemented!() } }
+/// `unix_timestamp().as_nanos()`
+#[verifier::external_body] fn unix_timestamp_nanos() -> (r: u128) { unimplemented!() }
+/// `env!("CARGO_PKG_VERSION").as_bytes()`
+#[verifier::external_body] fn crate_version_bytes() -> (r: &'static [u8]) { unimplemented!() }
+impl Slice { #[verifier::external_body] fn as_bytes(&self) -> (r: &[u8]) ensures r@ == self@ { unimplemented!() } }
+/// a meta entry as the writer builds it
+struct MetaItem { ghost name: Name, ghost value: Seq<u8> }
+/// the nested helper `fn meta(key: &str, value: &[u8]) -> InternalValue` of Writer::finish (InternalValue::from_components(key, value, 0, Value))
+#[verifier::external_body] fn meta(key: Name, value: &[u8]) -> (r: MetaItem) ensures r.name == key, r.value == value@ { unimplemented!() }
+/// the fields of writer::meta::Metadata and Writer that the meta section reads (R8)
+struct WMeta { data_block_count: usize, item_count: usize, key_count: usize, tombstone_count: usize, weak_tombstone_count: usize, weak_tombstone_reclaimable_count: usize,
+    first_key: Option<UserKey>, last_key: Option<UserKey>, lowest_seqno: SeqNo, highest_seqno: SeqNo, file_pos: u64, uncompressed_size: u64 }
+struct Writer { meta: WMeta, table_id: TableId, data_block_compression: CompressionType, index_block_compression: CompressionType, data_block_hash_ratio: f32,
+    initial_level: u8, data_block_restart_interval: u8, index_block_restart_interval: u8 }
+spec fn has(items: Seq<MetaItem>, name: Name, value: Seq<u8>) -> bool { exists|i: int| 0 <= i < items.len() && (#[trigger] items[i]).name == name && items[i].value == value }
+/// every name occurs once
+spec fn unique_names(items: Seq<MetaItem>) -> bool { forall|i: int, j: int| 0 <= i < j < items.len() ==> (#[trigger] items[i]).name != (#[trigger] items[j]).name }
+
+//@ WRAPPER_BEGIN
+impl Writer {
+    /// wrapper (generated) around the statement of Writer::finish that builds the meta entries
+    fn meta_items(&self, index_block_count: usize, filter_block_count: usize) -> (meta_items: [MetaItem; 29])
+        requires self.meta.first_key is Some, self.meta.last_key is Some
+        ensures
+            // the properties the reader decodes carry exactly the writer's numbers, keys and codecs under the names the reader asks for
+            has(meta_items@, N_TABLE_ID, le64(self.table_id)), has(meta_items@, N_ITEM_COUNT, le64(self.meta.item_count as u64)),
+            has(meta_items@, N_TOMBSTONE_COUNT, le64(self.meta.tombstone_count as u64)), has(meta_items@, N_WEAK_TOMBSTONE_COUNT, le64(self.meta.weak_tombstone_count as u64)),
+            has(meta_items@, N_WEAK_TOMBSTONE_RECLAIMABLE, le64(self.meta.weak_tombstone_reclaimable_count as u64)),
+            has(meta_items@, N_BLOCK_COUNT_DATA, le64(self.meta.data_block_count as u64)), has(meta_items@, N_BLOCK_COUNT_INDEX, le64(index_block_count as u64)),
+            has(meta_items@, N_BLOCK_COUNT_FILTER, le64(filter_block_count as u64)), has(meta_items@, N_FILE_SIZE, le64(self.meta.file_pos)),
+            has(meta_items@, N_KEY_MIN, self.meta.first_key->Some_0@), has(meta_items@, N_KEY_MAX, self.meta.last_key->Some_0@),
+            has(meta_items@, N_SEQNO_MIN, le64(self.meta.lowest_seqno)), has(meta_items@, N_SEQNO_MAX, le64(self.meta.highest_seqno)),
+            has(meta_items@, N_COMPRESSION_DATA, compression_bytes(self.data_block_compression)), has(meta_items@, N_COMPRESSION_INDEX, compression_bytes(self.index_block_compression)),
+            has(meta_items@, N_TABLE_VERSION, seq![3u8]), has(meta_items@, N_RESTART_INTERVAL_INDEX, seq![self.index_block_restart_interval]),
+            has(meta_items@, N_CHECKSUM_TYPE, seq![0u8]), has(meta_items@, N_FILTER_HASH_TYPE, seq![0u8]),
+            exists|t: u128| has(meta_items@, N_CREATED_AT, #[trigger] le128(t)),
+            unique_names(meta_items@),
+    {
+//@ FROM src/table/writer/mod.rs :: impl Writer :: fn finish :: BLOCK 1 `start ( "meta" ) ? ; {` :: STMTS `let meta_items =` .. `let meta_items =` :: OBL C18.5, C07.14
+//@ SUBST `"table_version"` ==> `N_TABLE_VERSION`
+//@ SUBST `"filter_hash_type"` ==> `N_FILTER_HASH_TYPE`
+//@ SUBST `"checksum_type"` ==> `N_CHECKSUM_TYPE`
+//@ SUBST `"restart_interval#index"` ==> `N_RESTART_INTERVAL_INDEX`
+//@ SUBST `"table_id"` ==> `N_TABLE_ID`
+//@ SUBST `"item_count"` ==> `N_ITEM_COUNT`
+//@ SUBST `"tombstone_count"` ==> `N_TOMBSTONE_COUNT`
+//@ SUBST `"block_count#data"` ==> `N_BLOCK_COUNT_DATA`
+//@ SUBST `"block_count#index"` ==> `N_BLOCK_COUNT_INDEX`
+//@ SUBST `"block_count#filter"` ==> `N_BLOCK_COUNT_FILTER`
+//@ SUBST `"file_size"` ==> `N_FILE_SIZE`
+//@ SUBST `"weak_tombstone_count"` ==> `N_WEAK_TOMBSTONE_COUNT`
+//@ SUBST `"weak_tombstone_reclaimable"` ==> `N_WEAK_TOMBSTONE_RECLAIMABLE`
+//@ SUBST `"created_at"` ==> `N_CREATED_AT`
+//@ SUBST `"key#min"` ==> `N_KEY_MIN`
+//@ SUBST `"key#max"` ==> `N_KEY_MAX`
+//@ SUBST `"seqno#min"` ==> `N_SEQNO_MIN`
+//@ SUBST `"seqno#max"` ==> `N_SEQNO_MAX`
+//@ SUBST `"compression#data"` ==> `N_COMPRESSION_DATA`
+//@ SUBST `"compression#index"` ==> `N_COMPRESSION_INDEX`
+//@ SUBST `"crate_version"` ==> `N_CRATE_VERSION`
+//@ SUBST `"data_block_hash_ratio"` ==> `N_DATA_BLOCK_HASH_RATIO`
+//@ SUBST `"index_keys_have_seqno"` ==> `N_INDEX_KEYS_HAVE_SEQNO`
+//@ SUBST `"initial_level"` ==> `N_INITIAL_LEVEL`
+//@ SUBST `"key_count"` ==> `N_KEY_COUNT`
+//@ SUBST `"prefix_truncation#data"` ==> `N_PREFIX_TRUNC_DATA`
+//@ SUBST `"prefix_truncation#index"` ==> `N_PREFIX_TRUNC_INDEX`
+//@ SUBST `"restart_interval#data"` ==> `N_RESTART_INTERVAL_DATA`
+//@ SUBST `"user_data_size"` ==> `N_USER_DATA_SIZE`
+//@ SUBST `. to_le_bytes ( )` ==> `.le_bytes()`
+//@ SUBST `u8 :: from ( ChecksumType :: Xxh3 )` ==> `U8OfChecksumType::from(ChecksumType::Xxh3)`
+//@ SUBST `env ! ( N_CRATE_VERSION_ENV ) . as_bytes ( )` ==> `crate_version_bytes()`
+//@ SUBST `env ! ( "CARGO_PKG_VERSION" ) . as_bytes ( )` ==> `crate_version_bytes()`
+//@ SUBST `unix_timestamp ( ) . as_nanos ( )` ==> `unix_timestamp_nanos()`
+//@ SUBST `. as_ref ( ) . expect ( "should exist" )` ==> `.as_ref().expect_rt().as_bytes()`
+        let meta_items = [
+            meta(
+                N_BLOCK_COUNT_DATA,
+                &(self.meta.data_block_count as u64).le_bytes(),
+            ),
+            meta(
+                N_BLOCK_COUNT_FILTER,
+                &(filter_block_count as u64).le_bytes(),
+            ),
+            meta(
+                N_BLOCK_COUNT_INDEX,
+                &(index_block_count as u64).le_bytes(),
+            ),
+            meta(N_CHECKSUM_TYPE, &[U8OfChecksumType::from(ChecksumType::Xxh3)]),
+            meta(
+                N_COMPRESSION_DATA,
+                &self.data_block_compression.encode_into_vec(),
+            ),
+            meta(
+                N_COMPRESSION_INDEX,
+                &self.index_block_compression.encode_into_vec(),
+            ),
+            meta(N_CRATE_VERSION, crate_version_bytes()),
+            meta(N_CREATED_AT, &unix_timestamp_nanos().le_bytes()),
+            meta(
+                N_DATA_BLOCK_HASH_RATIO,
+                &self.data_block_hash_ratio.le_bytes(),
+            ),
+            meta(N_FILE_SIZE, &self.meta.file_pos.le_bytes()),
+            meta(N_FILTER_HASH_TYPE, &[U8OfChecksumType::from(ChecksumType::Xxh3)]),
+            meta(N_INDEX_KEYS_HAVE_SEQNO, &[0x1]),
+            meta(N_INITIAL_LEVEL, &self.initial_level.le_bytes()),
+            meta(N_ITEM_COUNT, &(self.meta.item_count as u64).le_bytes()),
+            meta(
+                N_KEY_MAX,
+                // NOTE: At the beginning we check that we have written at least 1 item, so last_key must exist
+                self.meta.last_key.as_ref().expect_rt().as_bytes(),
+            ),
+            meta(
+                N_KEY_MIN,
+                // NOTE: At the beginning we check that we have written at least 1 item, so first_key must exist
+                self.meta.first_key.as_ref().expect_rt().as_bytes(),
+            ),
+            meta(N_KEY_COUNT, &(self.meta.key_count as u64).le_bytes()),
+            meta(N_PREFIX_TRUNC_DATA, &[1]), // NOTE: currently prefix truncation can not be disabled
+            meta(N_PREFIX_TRUNC_INDEX, &[1]), // NOTE: currently prefix truncation can not be disabled
+            meta(
+                N_RESTART_INTERVAL_DATA,
+                &self.data_block_restart_interval.le_bytes(),
+            ),
+            meta(
+                N_RESTART_INTERVAL_INDEX,
+                &self.index_block_restart_interval.le_bytes(),
+            ),
+            meta(N_SEQNO_MAX, &self.meta.highest_seqno.le_bytes()),
+            meta(N_SEQNO_MIN, &self.meta.lowest_seqno.le_bytes()),
+            meta(N_TABLE_ID, &self.table_id.le_bytes()),
+            meta(N_TABLE_VERSION, &[3u8]),
+            meta(
+                N_TOMBSTONE_COUNT,
+                &(self.meta.tombstone_count as u64).le_bytes(),
+            ),
+            meta(N_USER_DATA_SIZE, &self.meta.uncompressed_size.le_bytes()),
+            meta(
+                N_WEAK_TOMBSTONE_COUNT,
+                &(self.meta.weak_tombstone_count as u64).le_bytes(),
+            ),
+            meta(
+                N_WEAK_TOMBSTONE_RECLAIMABLE,
+                &(self.meta.weak_tombstone_reclaimable_count as u64).le_bytes(),
+            ),
+        ];
+//@ END
+        proof {
+            assert(meta_items@[24].value =~= seq![3u8]); assert(meta_items@[3].value =~= seq![0u8]); assert(meta_items@[10].value =~= seq![0u8]);
+            assert(meta_items@[20].value =~= seq![self.index_block_restart_interval]);
+        }
+        meta_items
+    }
+}
+//@ WRAPPER_END
+
+/// round trip: if the stored meta block holds what the writer built (each name once), the reader's numbers are the writer's
+proof fn lemma_meta_roundtrip(items: Seq<MetaItem>, b: Block, name: Name, x: u64)
+    requires unique_names(items), forall|i: int| 0 <= i < items.len() ==> b.props.contains_key((#[trigger] items[i]).name.0) && b.props[items[i].name.0] == items[i].value,
+        has(items, name, le64(x))
+    ensures p64(b, name) == x
+{
+    broadcast use axiom_le;
+    let i = choose|i: int| 0 <= i < items.len() && (#[trigger] items[i]).name == name && items[i].value == le64(x);
+    assert(b.props[name.0] == le64(x));
+    assert(le64(x).subrange(0, 8) =~= le64(x));
 }
 }
 fn main() {}
